@@ -12,7 +12,7 @@ import numpy as np
 
 from sim import core
 from sim.core import HarnessError
-from sim.kseam import Seam, compiled_call, kernel
+from sim.kseam import Seam, compiled_call, kernel, same_results
 from sim.mapmodel import (UNIT_CM, Locator, basis_arrays, build_mesh, cell_values, check_basis, direction_arg, gen_direction, gen_mesh,
                           gen_view, mesh_datagroup, requested_normal, view_kwargs)
 from sim.parsim import KernelError, Sim, analyse_dry_run, draw_schedule_config
@@ -76,7 +76,8 @@ def generate(rng, tier):
         if rng.random() < 0.7:
             view["dx"], view["dy"] = None, None
     return {"mesh": m, "view": view, "direction": direction, "layers": gen_layers(rng, m["ndim"]),
-            "call_mode": rng.choice([None, None, "image"]), "sched": draw_schedule_config(rng, maxT=8)}
+            "call_mode": rng.choice([None, None, "image"]), "sched": draw_schedule_config(rng, maxT=8),
+            "knob": rng.choice([None, None, None, 1024, 16384])}
 
 
 def describe(case):
@@ -117,7 +118,7 @@ def call_map(case, dg, sim_factory, extra=None):
         kw["mode"] = case["call_mode"]
     if extra:
         kw.update(extra)
-    with Seam(MODNAME, KATTR, sim_factory) as seam:
+    with Seam(MODNAME, KATTR, sim_factory, knob_scale=case.get("knob")) as seam:
         with np.errstate(all="ignore"):
             plot = osyris.map(*layers, **kw)
     return plot, seam.calls, kw
@@ -346,6 +347,13 @@ def execute(case, stats):
         V("basis", bad, {"n": nuv[0].tolist(), "u": nuv[1].tolist(), "v": nuv[2].tolist()})
         return res
     info = judge(case, p1, cells, loc, vals, origin_s, nuv, V, stats, "T=1")
+    ks_ = kernel(MODNAME, KATTR)[2]
+    if case.get("knob") and ks_ is not None and ks_.knobs:
+        stats.inc("probe.run_with_shrunken_kernel_knobs")
+        if viol:
+            # shrinking the constants changes the sequential result: not tuning knobs; judge the shipped values only
+            stats.inc("ambig.knob_variant_changes_sequential_result")
+            return execute(dict(case, knob=None), stats)
     if info is None:
         return res
     # units and names of the returned layers
@@ -417,6 +425,8 @@ def reductions(case, viol):
     if len(case["layers"]) > 1:
         for i in range(len(case["layers"])):
             yield dict(case, layers=case["layers"][:i] + case["layers"][i + 1:])
+    if case.get("knob"):
+        yield dict(case, knob=None)
     if case["sched"]["T"] > 1:
         c = dict(case, sched=dict(case["sched"], T=1, policy={"kind": "seq"}))
         c.pop("decisions", None)
@@ -450,7 +460,7 @@ def finalize(tier, base_seed, stats, viols):
         mod, orig, ks = kernel(MODNAME, KATTR)
         sim_out = ks.run(Sim(T=1), **args)
         real_out = compiled_call(MODNAME, KATTR, args, nthreads=1)
-        if not np.array_equal(np.asarray(sim_out), np.asarray(real_out), equal_nan=True):
+        if not same_results(sim_out, real_out):
             raise HarnessError(f"model divergence: simulated T=1 != compiled T=1 for anchor case {r}")
         checked += 1
     return {"fidelity_anchor": {"workloads_compiled_T1_equal_simulated_T1": checked, "attempted": nanchor}}
